@@ -5,6 +5,7 @@ import ast
 
 from .. import actions, irtools, repo, typed
 from ..common import AnalysisError, Check, norm_stmt, parse_py
+from ..absval import Node, members
 from ..ir import Cut, Look
 
 
@@ -100,6 +101,39 @@ def rule_s6(chk: Check):
         raise AnalysisError("S6 self-probe failed")
 
 
+def rule_s6_memo(chk: Check, ir, tr):
+    """In-place context rewriting (`set_expr_context`) of the result of a *memoised* rule changes the cached node: every later
+    cache hit — also from an alternative that wanted the node as a value — sees the rewritten context.  Harmless only when the
+    rule's own results already carry that context (rewriting is then a no-op)."""
+    from ..ir import Ref
+    n = 0
+    for r, key, a in actions.all_alts(ir.rules):
+        if a.action is None:
+            continue
+        for c in ast.walk(a.action):
+            if not (isinstance(c, ast.Call) and isinstance(c.func, ast.Attribute) and c.func.attr == "set_expr_context" and len(c.args) == 2
+                    and isinstance(c.args[0], ast.Name)):
+                continue
+            cap = c.args[0].id
+            want = norm_stmt(c.args[1])
+            items = [ni for ni in a.items if ni.name == cap and isinstance(ni.item, Ref) and ni.item.name in ir.rules]
+            if not items:
+                continue
+            ref = ir.rules[items[0].item.name]
+            n += 1
+            chk.count("S6-memo-mutation")
+            if ref.decorator not in ("memoize", "memoize_left_rec"):
+                chk.ok("S6-memo-mutation", f"{key}:{cap}", str(a.pos), "not memoised: the node is fresh")
+                continue
+            t = tr.interp.rule_types.get(ref.name)
+            ctxs = {m.ctx for m in members(t) if isinstance(m, Node) and m.ctx} if t is not None else {"?"}
+            chk.require(ctxs <= {want}, "S6-memo-mutation", f"{key}:{cap}", str(a.pos),
+                        f"`{norm_stmt(c)}` rewrites in place the node cached for the memoised rule `{ref.name}`, whose results are built "
+                        f"with context {sorted(ctxs)}: after an abandoned target attempt the same node comes back from the cache in a "
+                        f"value position with ctx={want} (compile(): expression must have Load context)")
+    chk.units["set_expr_context_on_rule_results"] = n
+
+
 def run(chk: Check):
     chk.explanation = (
         "Every ast.X(...) construction reachable from a grammar action (in the generated parser and, through call-site "
@@ -118,11 +152,14 @@ def run(chk: Check):
     chk.units.update({"rules": len(ir.rules), "constructor_sites": len(tr.interp.ctor_sites),
                       "unsupported_constructs": dict(tr.interp.unsupported),
                       "summarised_calls": dict(tr.interp.summary_uses)})
-    tr.feed(chk, {"S1-list-field": "S1-list-field", "S1-field-kind": "S1-field-kind", "S2-required": "S2-required",
+    tr.feed(chk, {"S1-list-field": "S1-list-field", "S1-field-kind": "S1-field-kind", "S1-starred-position": "S1-starred-position", "S2-required": "S2-required",
                   "S3-ctx": "S3-ctx", "S4-location": "S4-location", "S6-singleton-write": "S6-singleton-write",
                   "A5-loc-key": "A5-loc-key", "A5-loc-pair": "A5-loc-pair", "A5-loc-order": "A5-loc-order", "S1-joinedstr-bytes": "S1-joinedstr-bytes"})
     rule_s5(chk, ir)
     rule_s6(chk)
+    rule_s6_memo(chk, ir, tr)
+    from .c10 import rule_f4
+    rule_f4(chk, ir, tr)   # FormattedValue.conversion must be one of -1, 115, 114, 97 (compile() refuses anything else)
     from .c01 import rule_result_span
     rule_result_span(chk, ir)
     chk.floor("S1-list-field", 100)
